@@ -166,14 +166,20 @@ func runC16(c *Ctx) {
 				continue
 			}
 			n++
-			ex, ok := v.(*ssa.Extract)
-			if !ok {
+			leaves := expandCases(v, nil, 0)
+			if len(leaves) == 0 {
 				good = false
-				continue
 			}
-			cl, ok := ex.Tuple.(*ssa.Call)
-			if !ok || !isParamValue(p, cl.Call.Value, pk) {
-				good = false
+			for _, lfv := range leaves {
+				ex, ok := lfv.val.(*ssa.Extract)
+				if !ok {
+					good = false
+					continue
+				}
+				cl, ok := ex.Tuple.(*ssa.Call)
+				if !ok || ex.Index != 0 || !isParamValue(p, cl.Call.Value, pk) {
+					good = false
+				}
 			}
 		}
 		c.check(good && n > 0, "handler-returns-packed", handle.Pos(), "Handle returns only the result of the packer it was given", "Handle returns a buffer that was not produced by the transport's packer: the stream servers write unframed bytes")
